@@ -167,7 +167,7 @@ class Interp(object):
         self.raised = {}  # id -> exception objects raised by the program
         self.lock = threading.Lock()
         # model of the extractor registry
-        self.extractors = dict(opts.get("extractors") or {})
+        self.extractors = {}
         self.check_context = opts.get("check_context", True)
 
     # -- helpers ---------------------------------------------------------
@@ -388,6 +388,20 @@ class Interp(object):
                 self.run.tasks.append(tb)
 
     def op_action(self, node, ctx, pending):
+        before = current_action()
+        try:
+            self._op_action(node, ctx, pending)
+        except (Abort, HarnessError):
+            raise
+        except BaseException:
+            if self.check_context and current_action() is not before:
+                self.run.context_errors.append(
+                    "an exception left action kind %s but current_action() is %r, was %r before entry"
+                    % (node["kind"], _act_desc(current_action()), _act_desc(before))
+                )
+            raise
+
+    def _op_action(self, node, ctx, pending):
         n = self.next_n()
         kind = node["kind"]
         typed = node.get("typed") if kind in ("typed", "typed_task") else None
@@ -484,10 +498,16 @@ class Interp(object):
                 raise
             except BaseException as e:
                 exc = e
-                self.api("finish(exc)", action.finish, e)
-                self._exit_cm(cm, e)
+                try:
+                    self.api("finish(exc)", action.finish, e)
+                finally:
+                    self._exit_cm(cm, e)
             else:
-                self.api("finish()", action.finish)
+                try:
+                    self.api("finish()", action.finish)
+                except BaseException as e2:
+                    self._exit_cm(cm, e2)
+                    raise
                 self._exit_cm(cm, None)
         elif kind == "run":
             try:
@@ -866,6 +886,40 @@ class Interp(object):
         self._schedule(node, ctx, pending, cont)
 
 
+def _extractor_function(beh):
+    if callable(beh):
+        return beh
+    if "fields" in beh:
+        return lambda e: dict(beh["fields"])
+
+    def raising(e):
+        raise make_exc(beh["raise"], 0)
+
+    return raising
+
+
+class InjectedFault(Exception):
+    """Raised by fault-injecting loggers / destinations of a case."""
+
+    injected = True
+
+
+class RaisingLogger(object):
+    """An ILogger whose write() raises on the given (0-based) call indices."""
+
+    def __init__(self, mask):
+        self.mask = set(mask)
+        self.calls = 0
+        self.messages = []
+
+    def write(self, dictionary, serializer=None):
+        k = self.calls
+        self.calls += 1
+        if k in self.mask:
+            raise InjectedFault("logger.write call %d fails" % k)
+        self.messages.append(dict(dictionary))
+
+
 def _act_desc(a):
     if a is None:
         return None
@@ -908,10 +962,10 @@ def run_program(program, sink="memory", opts=None, destinations=None, before=Non
     tmp = None
     fobj = None
     try:
-        if "extractors" in opts:
-            for klass, fn in opts["extractors"].items():
-                eliot_errors._error_extraction.registry[klass] = fn
         interp.extractors = dict(eliot_errors._error_extraction.registry)
+        for klass, beh in (opts.get("extractors") or {}).items():
+            eliot_errors._error_extraction.registry[klass] = _extractor_function(beh)
+            interp.extractors[klass] = beh
         if sink == "memorylogger":
             ml = MemoryLogger()
             run.memory_logger = ml
@@ -1089,7 +1143,7 @@ def program_features(program):
 
 # ---------------------------------------------------------------- strategy
 
-TYPE_NAMES = ["app:a", "app:b", "app:c", "sys:x", "t"]
+TYPE_NAMES = ["app:a", "app:b", "app:c", "sys:x", "t", ""]
 
 
 def programs(max_nodes=12, faults=False, remote=True, kinds=None, msg_kinds=None, raises=True, preserve=True, max_depth=5, reenter=True):
@@ -1113,7 +1167,7 @@ def programs(max_nodes=12, faults=False, remote=True, kinds=None, msg_kinds=None
     leaf = st.one_of(msg, msg, msg, msg, tb)
     width = 3 if max_nodes <= 8 else 4
 
-    def compound(body):
+    def compound(body, top=False):
         action = st.builds(
             lambda kind, atype, sf, ef, body, typed, extra, ir, dt, exc: {
                 "op": "action",
@@ -1140,6 +1194,10 @@ def programs(max_nodes=12, faults=False, remote=True, kinds=None, msg_kinds=None
             exc_idx,
         )
         options = [action, action, action, action]
+        if top:
+            # at top level there is no current action: re-entering or handing
+            # off is impossible, so start with an action
+            return action
         if reenter:
             options.append(
                 st.builds(
@@ -1180,15 +1238,15 @@ def programs(max_nodes=12, faults=False, remote=True, kinds=None, msg_kinds=None
             lambda p: p[0] + ([p[1]] if p[1] is not None else [])
         )
 
-    def level(depth):
+    def level(depth, top=False):
         if depth <= 0:
-            return compound(with_tail(st.lists(leaf, max_size=width)))
+            return compound(with_tail(st.lists(leaf, max_size=width)), top)
         below = level(depth - 1)
         side = st.lists(st.one_of(leaf, leaf, level(0)), max_size=width - 1)
-        return compound(with_tail(st.tuples(side, below, side).map(lambda p: p[0] + [p[1]] + p[2])))
+        return compound(with_tail(st.tuples(side, below, side).map(lambda p: p[0] + [p[1]] + p[2])), top)
 
     def program(d):
-        first = level(d - 1)
+        first = level(d - 1, top=True)
         rest = st.lists(st.one_of(leaf, level(max(0, d - 2))), max_size=2)
         return st.tuples(st.lists(leaf, max_size=1), first, rest).map(lambda p: p[0] + [p[1]] + p[2])
 
